@@ -209,12 +209,73 @@ fn tables<B: BaseFut>(rep: &mut Report, seed: u64, log_n: u32, width: usize) {
         }
         fl *= 2;
     }
+    // route 4: the documented default - `init` receives a state "initialized to all zeros" - on
+    // tables that already hold data: one register is left untouched by `init` and copied forward
+    // by `update`, so the whole column must read zero (per fragment: the fragment's first row
+    // onward)
+    let skip = (seed as usize) % width;
+    let expect = |r: usize, c: usize, first_row: usize| if c == skip { let _ = first_row; B::ZERO } else { cell::<B>(seed, r, c) };
+    let mut t4 = TraceTable::<B>::init((0..width).map(|c| (0..n).map(|r| cell::<B>(seed ^ 0x55, r, c) + B::ONE).collect()).collect());
+    rep.evals(1);
+    t4.fill(
+        |state| {
+            for (c, s) in state.iter_mut().enumerate() {
+                if c != skip {
+                    *s = cell::<B>(seed, 0, c);
+                }
+            }
+        },
+        |i, state| {
+            for (c, s) in state.iter_mut().enumerate() {
+                if c != skip {
+                    *s = cell::<B>(seed, i + 1, c);
+                }
+            }
+        },
+    );
+    if (0..width).any(|c| (0..n).any(|r| t4.get(c, r) != expect(r, c, 0))) {
+        rep.violation("fill-init-state-not-zero", ctx.clone());
+    }
+    for fl in [2usize, n / 2, n].into_iter().filter(|f| *f >= 2) {
+        rep.evals(1);
+        rep.count("fragment_refills_relying_on_zero_default");
+        let mut t5 = TraceTable::<B>::init((0..width).map(|c| (0..n).map(|r| cell::<B>(seed ^ 0xaa, r, c) + B::ONE).collect()).collect());
+        let r = guard(|| {
+            t5.fragments(fl).for_each(|mut frag| {
+                let off = frag.offset();
+                frag.fill(
+                    |state| {
+                        for (c, s) in state.iter_mut().enumerate() {
+                            if c != skip {
+                                *s = cell::<B>(seed, off, c);
+                            }
+                        }
+                    },
+                    |i, state| {
+                        for (c, s) in state.iter_mut().enumerate() {
+                            if c != skip {
+                                *s = cell::<B>(seed, off + i + 1, c);
+                            }
+                        }
+                    },
+                );
+            });
+        });
+        match r {
+            Ok(()) => {
+                if (0..width).any(|c| (0..n).any(|r| t5.get(c, r) != expect(r, c, r - r % fl))) {
+                    rep.violation("fragment-init-state-not-zero", json!({"ctx": ctx, "fragment_length": fl, "untouched_register": skip}));
+                }
+            },
+            Err(p) => rep.violation(&format!("{}|fragments-refill", p.sig()), json!({"ctx": ctx, "fragment_length": fl})),
+        }
+    }
 }
 
 pub fn run(args: &Args) {
     use winter_math::fields::{f128, f62, f64 as f64m};
     let mut rep = Report::new("C29", "c29",
-        "per random GenAir instance (as C01, base / quadratic / cubic auxiliary field): Trace::validate on the satisfying trace and on every corruption class (cells at first / interior / last non-exempt / next-of-last-non-exempt / first fully exempt / last row in constrained and random columns, every assertion's cell, a row, a column, two rows; auxiliary cells at 7 row classes): validate panics with its violation message <=> the independent checker (reference arithmetic, periodic values by index) reports a violation; TraceTable fill vs init vs fragments of every length 2..n (rayon in the concurrent build), widths 1..9, n = 8..4096; evaluation = one validate call or table comparison; distinct = instances");
+        "per random GenAir instance (as C01, base / quadratic / cubic auxiliary field): Trace::validate on the satisfying trace and on every corruption class (cells at first / interior / last non-exempt / next-of-last-non-exempt / first fully exempt / last row in constrained and random columns, every assertion's cell, a row, a column, two rows; auxiliary cells at 7 row classes): validate panics with its violation message <=> the independent checker (reference arithmetic, periodic values by index) reports a violation; TraceTable fill vs init vs fragments of every length 2..n (rayon in the concurrent build), refills of populated tables through fill / fragments whose init closure leaves a register at the documented zero default, widths 1..9, n = 8..4096; evaluation = one validate call or table comparison; distinct = instances");
     let seed = args.seed();
     let max_log_n = args.u64("maxlogn", if args.thorough() { 10 } else { 7 }) as u32;
     let mut w = Worker::new(args, 60);
